@@ -18,9 +18,10 @@ HEAD = '''module mm
     integer :: k
   end type pt
 contains
-subroutine s(a, b, c, ia, n, m, t, u, kout, flag, p, q)
+subroutine s(a, b, c, ia, n, m, t, u, kout, flag, p, q, cols)
   type(pt), intent(inout) :: p
   type(pt), intent(inout) :: q
+  type(pt), dimension(3), intent(inout) :: cols
   integer, intent(inout) :: n
   integer, intent(inout) :: m
   integer, intent(inout) :: kout
@@ -68,6 +69,7 @@ end module mm
 '''
 DOM = [("n", [1, 2, 3]), ("m", [1, 2]), ("kout", [2]), ("t", [[1, 2]]), ("u", [[3, 1]]),
        ("flag", [True, False]), ("p%x", [[1, 2]]), ("q%x", [[5, 2]]), ("p%k", [1]), ("q%k", [2])]
+FILLS_NOTE = "cols%k takes small values through fill 2 only where used as index"
 FILLS = [1, 2]
 
 BODIES = [
@@ -93,6 +95,10 @@ BODIES = [
     ["p%x = q%x + a(n)", "p%v(n) = q%v(m) * 2.0", "q%k = n", "a(q%k) = p%v(1)", "p%v(q%k) = p%v(q%k) + 1.0",
      "do i = 0, 4", "  q%v(i) = p%v(i) + p%x", "end do", "if (p%x > q%x) p%k = q%k", "call incr(p%x)",
      "call setout(q%v(n), p%k)", "p%v(:) = q%v(:) + t", "t = sum(p%v) + q%x"],
+    ["cols(n)%x = cols(m)%x + 1.0", "cols(n)%v(m) = cols(m)%v(n) * 2.0", "call incr(cols(n)%x)",
+     "call setout(cols(m)%v(kout), n)", "call setout(cols(kout)%x, m)", "call readonly(cols(n)%v(m), t)",
+     "cols(ia(1))%k = n", "a(cols(m)%k) = cols(n)%v(1)", "call incr(cols(ia(2))%v(ia(1)))",
+     "t = cols(1)%x + cols(2)%x + cols(3)%x"],
 ]
 
 
